@@ -1,0 +1,10 @@
+//go:build verif
+
+package rtpreceiver
+
+import "github.com/pion/rtcp"
+
+// VerifReport exposes report() to the verification harness (build tag verif only).
+func (rr *Receiver) VerifReport() rtcp.Packet {
+	return rr.report()
+}
